@@ -171,7 +171,7 @@ class Check:
 def replay_file(path, quiet=False):
     with open(path) as f:
         rp = json.load(f)
-    from . import props  # registers evaluators
+    from . import props, checks, checks2, checks3  # registers evaluators
     core.build(rp['variant'])
     vs, rs = EVALUATORS[rp['evaluator']](rp['cases'], rp['variant'])
     sig = '%s:%s' % (rp['class'], rp['site'])
